@@ -18,6 +18,15 @@ Proof      : coq/Props/C06.v over Model/GCRace.v: for every interleaving of coll
              run (Table.garbage_collect announces a run before it loads the markers; adoption is refused while one is
              announced) -- repair ae2d4aa; adoption as the code did it before (no marker, no handshake) refutes the
              statement (C06_unmarked_adoption_refuted: the counter-run, 4 ms against a grace period of 1 h).
+             The TRANSACTION's side of that contract -- a file is published only while its marker is in place -- is the
+             marker LEDGER of one transaction (Model/TxMarkers.v): written files, ADOPTED pre-built files, the manifests of the
+             attempt in progress, through any number of commit attempts that LOSE the OCC race and are retried; at every step
+             up to and including the pointer flip the transaction holds a marker for every file it is going to publish
+             (C06_tx_markers_cover_payload, by induction over the history) -- stated over kernels REGENERATED from transaction.py
+             (translator/gen_txmarkers.py -> Gen/GenTxMarkers.v: which methods grow / drop self._inflight_markers, which methods
+             are reachable from the RETRY arm of commit's conflict handler, registration before write / before queueing);
+             C06_tx_markers_cover_payload_kernels is the statement for any kernels that protect and do not drop on retry, and
+             C06_dropping_retry_refuted shows the condition is necessary (a retry arm that drops publishes an unmarked file).
 Tie        : the real GarbageCollector.collect runs as an actor under the scheduler against real transactions on the
              local backend in VIRTUAL time (time.time in the collector, datetime in the library, and file modification
              times all come from the scheduler clock, so 'five hours pass' is one schedule event); the storage log is
@@ -33,7 +42,10 @@ Oracle     : at the end every file referenced by every retained snapshot exists 
              data file / manifest / manifest list) with a collection run inside the gap and a second one later,
              transactions beyond the abandonment window (traced against the model, not judged), random two-run
              interleavings with four clock jumps; transactions that ADOPT a pre-built file ten hours old
-             (append_files + commit) at every point of a collection run.  An adoption that append_files refuses (run in
+             (append_files + commit) at every point of a collection run; CONTENTION (directed_contended): a transaction of any
+             kind -- appending, ADOPTING a 10 h old pre-built file, or both in one transaction -- loses the OCC race to another
+             writer and retries, with the collector's steps placed between every two steps of the lost attempt and of the whole
+             retry (j steps of the committer, k of the collector, m of the committer, rest).  An adoption that append_files refuses (run in
              progress, or the orphan was already collected) is an accepted outcome: nothing references the file.
 """
 from __future__ import annotations
@@ -48,8 +60,10 @@ from harness.props import c01
 
 LEVEL = "proof"
 THEOREMS = ["C06_gc_race_safe", "C06_swept_only_abandoned", "C06_unswept_marker_kept", "C06_marker_kernel", "C06_delete_kernel",
-            "C06_unmarked_adoption_refuted"]
+            "C06_unmarked_adoption_refuted",
+            "C06_tx_markers_cover_payload", "C06_tx_markers_cover_payload_kernels", "C06_dropping_retry_refuted"]
 REQ = ["DS.Model.GCRace"]
+REQ_LEDGER = ["DS.Gen.GenTxMarkers", "DS.Model.TxMarkers"]
 MANIFEST_ENTRY = {
     "level_text": "C06_gc_race_safe proved in Coq by an inductive invariant over every interleaving of collector steps, "
                   "transaction steps on any number of marker-protected files (data files, manifests, manifest lists; slow writes: "
@@ -59,15 +73,21 @@ MANIFEST_ENTRY = {
                   "is announced; C06_unmarked_adoption_refuted: the unrepaired adoption violates the statement); C06_swept_only_abandoned / C06_unswept_marker_kept: a marker is deleted by the collector "
                   "only when older than the abandonment timeout and stays in place until then; the collector's marker-age and "
                   "deletion kernels are regenerated from garbage_collector.py (GenGCRace.v) and the proofs are stated over them; "
+                  "C06_tx_markers_cover_payload: the marker ledger of one transaction (written + adopted files + manifests of the attempt "
+                  "in progress, any number of lost OCC attempts and retries) covers everything it is going to publish at every step up to "
+                  "the flip, over kernels regenerated from transaction.py (GenTxMarkers.v: who grows / drops the marker list, what the "
+                  "retry arm of commit reaches); C06_dropping_retry_refuted: a retry arm that drops markers publishes an unmarked file; "
                   "the real collector and real transactions run under the deterministic scheduler in virtual time and their "
                   "storage log must be accepted by the model's strict run (markers before metadata; marker deletions only as the "
                   "regenerated kernel allows); an implementation-only oracle re-reads every retained snapshot",
-    "level_note": "trusted: Coq kernel; translator/gen_gcrace.py (fail-closed); scheduler harness with virtual clock and virtual "
+    "level_note": "trusted: Coq kernel; translator/gen_gcrace.py, translator/gen_txmarkers.py (fail-closed; the latter classifies uses of "
+                  "self._inflight_markers syntactically and over-approximates reachability by every self.<method> mentioned); scheduler harness with virtual clock and virtual "
                   "modification times; transactions younger than the 24 h abandonment window (older ones are traced against the "
                   "model but not judged: the code deliberately stops protecting them)",
     "technique": "Coq invariant proof over a collector x transactions machine stated over regenerated collector kernels + "
                  "scheduled trace validation in virtual time (clock jumps at every point of a transaction, two collection runs, "
-                 "adoption of old pre-built files at every point of a run)",
+                 "adoption of old pre-built files at every point of a run; adopting / writing+adopting committers that lose the OCC race, "
+                 "collector at every step of the retry) + per-transaction marker-ledger trace validation",
     "design_ref": "DESIGN.md section 5 C06",
 }
 
@@ -473,6 +493,93 @@ def project(out: Dict[str, Any], ntx: int) -> Tuple[List[str], Optional[str], in
     return evs, None, len(fid)
 
 
+def project_ledger(out: Dict[str, Any], actor: str) -> Tuple[List[str], Optional[str], Dict[str, Any]]:
+    """One transaction's storage log as events of its marker LEDGER (Model/TxMarkers.v), the reason the log is non-conforming
+    (a marker handled in a way the ledger has no event for), and what the log itself says about the transaction: how many
+    commit attempts it lost, which markers it held when the pointer write took effect, which it holds at the end."""
+    evs: List[str] = []
+    fid: Dict[str, int] = {}
+    held: List[str] = []                      # markers this transaction wrote and has not removed (by name of the protected file)
+    in_attempt = progressed = False           # an attempt has read its base / has gone on into _commit_file_ops
+    flipped = False
+    ended: Optional[str] = None
+    at_flip: Optional[List[str]] = None
+    pending_adopt: List[str] = []             # markers registered by _protect_adopted_files, outcome not yet known
+
+    def settle(accepted: bool) -> None:
+        for nm in pending_adopt:
+            evs.append(f"{'XAdopt' if accepted else 'XRefuse'} {fid[nm]}%nat")
+        pending_adopt.clear()
+
+    for e in out["log"]:
+        if e["actor"] != actor:
+            continue
+        op, path, phase = e["op"], e["path"], e["phase"]
+        pcs = P.path_class(path)
+        base = path.rsplit("/", 1)[-1]
+        name = base[:-len(".inflight")] if base.endswith(".inflight") else base
+        if "Transaction._commit_file_ops" in phase:
+            progressed = True
+        if op == "write_file" and pcs == "marker" and e["result"] == "ok":
+            if name not in fid:
+                fid[name] = len(fid)
+            if name not in held:
+                held.append(name)
+            if "Transaction._protect_adopted_files" in phase:
+                pending_adopt.append(name)
+            elif "Transaction._commit_file_ops" in phase:
+                evs.append(f"XAttempt {fid[name]}%nat")
+            elif "Transaction.append_data" in phase:
+                evs.append(f"XWrite {fid[name]}%nat")
+            else:
+                return evs, f"{actor} registered the marker {base} in {phase[-2:] if phase else '?'}: not a step of the ledger", {}
+        elif op == "delete_file" and pcs == "marker" and e["result"] == "ok":
+            if "Transaction._protect_adopted_files" in phase:
+                if name in pending_adopt:
+                    pending_adopt.remove(name)
+                    evs.append(f"XRefuse {fid[name]}%nat")
+                    held.remove(name)
+                    continue
+                return evs, f"{actor}: a refused adoption removed the marker {base}, which it had not registered itself", {}
+            if "Transaction._finish_committed" in phase:
+                if ended is None:
+                    settle(True)
+                    ended = "finish"
+                    evs.append("XFinish")
+            elif "Transaction._rollback" in phase:
+                if ended is None:
+                    settle(True)
+                    ended = "rollback"
+                    evs.append("XRollback")
+            else:
+                return evs, (f"{actor} removed the in-flight marker {base} in {phase[-1] if phase else '?'} -- neither the end of the "
+                             f"transaction nor a refused adoption: the ledger has no such step"), {}
+            if name in held:
+                held.remove(name)
+        elif op == "read_file" and pcs == "hint" and "Transaction.commit" in phase and "Transaction._commit_file_ops" not in phase:
+            settle(True)
+            if in_attempt and progressed and not flipped:
+                evs.append("XConflict")         # a new base is read although the attempt in progress did not commit: it lost the race
+            in_attempt, progressed = True, False
+        elif op == "write_file" and pcs == "hint" and e["result"] == "ok" and "Transaction.commit" in phase:
+            settle(True)
+            flipped = True
+            at_flip = list(held)
+            evs.append("XCommit")
+    if pending_adopt:
+        settle(ended is None and not any(o == actor and st != "ok" for o, (st, _d) in out["outcomes"].items()))
+    obs = {"lost": evs.count("XConflict"), "held_at_flip": None if at_flip is None else len(at_flip), "held_at_end": len(held),
+           "flipped": flipped, "ended": ended}
+    return evs, None, obs
+
+
+def ledger_expr(evs: List[str]) -> str:
+    return (f"match xrun_strict gen_xkernels xinit [{'; '.join(evs)}] 0%nat with "
+            f"| inl s => (1, (Z.of_nat (x_lost s), (Z.of_nat (List.length (x_markers s)), (Z.of_nat (List.length (x_bare s)), "
+            f"match x_phase s with XOpen => 0 | XFlipped => 1 | XDone => 2 | XRolled => 3 end)))) "
+            f"| inr i => (0, (Z.of_nat i, (0, (0, 0)))) end")
+
+
 def model_expr(evs: List[str], nfiles: int) -> str:
     return (f"match grun_strict (ginit [(0%nat, -1000000)]) [{'; '.join(evs)}] 0%nat with "
             f"| inl w => (1, (Z.of_nat (List.length (g_deleted w)), map (fun t => if g_present w t then 1 else 0) (seq 0%nat {nfiles}%nat))) "
@@ -776,22 +883,30 @@ CONTENDED = (2, 5, 6)                # transaction sets in which transaction 1 c
 
 def run(ctx) -> None:
     ctx.rule = ("schedules of one or two collection runs (grace 1000 ms / 10 min) with 1-2 transactions (append incl. OCC retry, rollback, "
-                "append_files of a pre-built file 10 h old) "
+                "append_files of a pre-built file 10 h old, append_data + append_files in one transaction; adopting committers that lose the "
+                "OCC race and retry with the collector at every step of the retry) "
                 "and a clock actor that jumps time (5000 ms twice; at every point of a transaction incl. between a marker and its file; "
                 "25 h; four random amounts), at storage-operation granularity; bounded-preemption enumeration + directed families + "
                 "random; distinct = executed schedule")
     ctx.trusted_base += ["harness/lib/sched.py; harness/props/c06.py (virtual time: collector clock, library clock and file mtimes)",
-                         "translator/gen_gcrace.py (collector kernels regenerated from garbage_collector.py, fail-closed)"]
+                         "translator/gen_gcrace.py (collector kernels regenerated from garbage_collector.py, fail-closed)",
+                         "translator/gen_txmarkers.py (marker-list kernels regenerated from transaction.py, fail-closed)"]
     ctx.assumptions += ["collection run shorter than the grace period (runs violating the proviso are not judged)",
                         "markers younger than the abandonment window (runs with an older marker at a marker load are not judged)"]
-    ctx.proofs(THEOREMS, gen_files=["GenGCRace.v"])
+    ctx.proofs(THEOREMS, gen_files=["GenGCRace.v", "GenTxMarkers.v"])
     ctx.allow_axioms([])
     quick = ctx.tier == "quick"
     exprs, metas, bad = [], [], []
     total = judged = gc_gave_up = abandoned = adopt_refused = 0
+    ledger_cases = ledger_lost_max = 0
+    ledger_bad: List[Dict[str, Any]] = []
+    ledger_seen: Dict[Any, Dict[str, Any]] = {}
+    import time as _time
+    secs: Dict[str, float] = {}
     for ti, txns in enumerate(TXSETS):
         if quick and ti == 4:
             continue                                # (append + adopt together: thorough tier)
+        _t0 = _time.time()
         runs = list(explore(ctx, txns, 5000, 2 if quick else 3, (40 if ti < 2 else 25 if ti == 3 else 12 if ti < 5 else 4) if quick else 900 if ti < 5 else 300))
         if ti == 0 or not quick:
             runs += list(directed(ctx, txns, quick))
@@ -817,6 +932,7 @@ def run(ctx) -> None:
         for k in range((10 if ti < 5 else 3) if quick else 200):
             seed = ctx.rng.randrange(1 << 30)
             runs.append(([("random", seed)], run_case(ctx, txns, lambda sc, seed=seed: S.random_chooser(_r.Random(seed), 0.4), 5000)))
+        secs["+".join(t["kind"] for t in txns)] = round(_time.time() - _t0, 1)
         for dev, out in runs:
             total += 1
             ctx.count(1, (ti, tuple(out["schedule"])))
@@ -831,6 +947,18 @@ def run(ctx) -> None:
                        else "deadlock" if why.startswith("deadlock") else "actor-raised")
                 ctx.violation(f"gc-race:{'+'.join(t['kind'] for t in txns)}:{cls}", why,
                               {"txns": txns, "deviations": list(dev), "schedule": out["schedule"], "age_jump": 5000})
+            if not out["deadlock"]:
+                # every transaction of the run against its marker ledger (whatever the collection did)
+                for i in range(len(txns)):
+                    levs, lnc, obs = project_ledger(out, f"A{i}")
+                    ledger_cases += 1
+                    if lnc:
+                        ledger_bad.append({"txns": txns, "schedule": out["schedule"], "nonconforming": lnc})
+                        continue
+                    cut = levs.index("XCommit") + 1 if "XCommit" in levs else len(levs)
+                    ledger_seen.setdefault((tuple(levs), cut, obs["held_at_flip"], obs["held_at_end"], obs["ended"], obs["lost"]),
+                                           {"txns": txns, "schedule": out["schedule"], "actor": f"A{i}"})
+                    ledger_lost_max = max(ledger_lost_max, obs["lost"])
             if not in_proviso:
                 continue
             abandoned += 1 if outside_abandonment(out) else 0
@@ -841,6 +969,7 @@ def run(ctx) -> None:
             exprs.append(model_expr(evs, nfiles))
             metas.append((txns, dev, out, evs))
     ctx.stats["schedules"] = total
+    ctx.stats["seconds_running_schedules_per_transaction_set"] = secs
     ctx.stats["runs_within_proviso"] = judged
     ctx.stats["runs_in_which_a_collection_gave_up"] = gc_gave_up     # GarbageCollectionAborted (pointer moved under it): fail closed
     ctx.stats["runs_in_which_an_adoption_was_refused"] = adopt_refused     # append_files: collection in progress / orphan already collected
@@ -858,6 +987,36 @@ def run(ctx) -> None:
         t, d, o, e = metas[len(metas) // 2]
         ctx.sample({"txns": t, "schedule": o["schedule"], "model_events": e})
     ctx.correspondence("gc-race-trace", judged, bad)
+    # the marker ledger: the model must accept every transaction's log, hold as many markers at the pointer flip and at the end
+    # as the transaction really does on storage, count the same lost attempts, end in the same phase, and never see bare payload
+    keys = list(ledger_seen)
+    lex: List[str] = []
+    for (levs, cut, _hf, _he, _en, _lo) in keys:
+        lex.append(ledger_expr(list(levs[:cut])))
+        lex.append(ledger_expr(list(levs)))
+    try:
+        lvals = coqbuild.coq_eval(REQ_LEDGER, lex, chunk=60) if lex else []
+    except RuntimeError as e:
+        ctx.proof_problems.append("ledger evaluation failed: " + str(e)[:800])
+        lvals = []
+    for n, key in enumerate(keys):
+        if 2 * n + 1 >= len(lvals):
+            break
+        levs, cut, held_flip, held_end, ended, lost = key
+        where = ledger_seen[key]
+        (ok1, (lost1, (nm1, (bare1, _ph1)))), (ok2, (lost2, (nm2, (bare2, ph2)))) = lvals[2 * n], lvals[2 * n + 1]
+        if ok1 != 1 or ok2 != 1:
+            ledger_bad.append(dict(where, rejected_event_index=lost2 if ok2 != 1 else lost1, events=list(levs)))
+            continue
+        want_phase = {"finish": 2, "rollback": 3}.get(ended, 1 if "XCommit" in levs else 0)
+        if (held_flip is not None and nm1 != held_flip) or bare1 != 0 or bare2 != 0 or lost2 != lost or ph2 != want_phase \
+                or (ended is not None and nm2 != held_end):
+            ledger_bad.append(dict(where, events=list(levs), model={"markers_at_flip": nm1, "markers_at_end": nm2, "bare": bare2, "lost": lost2, "phase": ph2},
+                                   implementation={"held_at_flip": held_flip, "held_at_end": held_end, "lost": lost, "ended": ended}))
+    ctx.stats["ledger_transactions"] = ledger_cases
+    ctx.stats["ledger_distinct_histories"] = len(keys)
+    ctx.stats["ledger_most_lost_attempts_in_one_transaction"] = ledger_lost_max
+    ctx.correspondence("tx-marker-ledger", ledger_cases, ledger_bad)
 
 
 def replay(ctx, payload) -> int:
